@@ -184,6 +184,8 @@ def gen_map_rows(rng, ro, eo, nrows, maxlen, kptype, ptype):
         else:
             n = rng.randint(1, min(maxlen, len(kp)))
             ks = rng.sample(kp, n)
+            if n > 1 and rng.random() < 0.15:
+                ks[rng.randrange(1, n)] = ks[0]           # a repeated key: dict(zip(k, v)) keeps the LAST value
             rows.append([[k, None if (eo and rng.random() < 0.3) else rng.choice(vp)] for k in ks])
     return rows
 
@@ -342,6 +344,7 @@ def run(ctx):
         stage_schema(ctx, pq, w)
         stage_struct_levels(ctx, pq, w)
         stage_refusal(ctx, pq, w)
+        stage_py_dict(ctx, pq)
         if not FX:
             stage_fixtures(ctx, pq, w)
         stage_direct(ctx, pq, w)
@@ -467,6 +470,25 @@ def stage_struct_levels(ctx, pq, w):
                     ctx.correspondence("nested_levels ~ core._nested_levels", {**case, "leaf": leaf["which"]},
                                        [bool(int(m[0])), [int(x) for x in m[1]], int(m[2]), "uint8", True],
                                        [r["null"], r["defi_out"], r["max_def_out"], r["dtype"], r["none_passthrough"]])
+
+
+# ---- G: Python's dict(pairs) against the model py_dict ---------------------------------------------
+
+def stage_py_dict(ctx, pq):
+    rng = ctx.rng
+    cmds, cases = [], []
+    for _ in range(200):
+        n = rng.randint(0, 8)
+        pairs = [[rng.randint(0, 4), rng.randint(0, 9)] for _k in range(n)]
+        cmds.append(("py_dict", pairs))
+        cases.append(pairs)
+    outs = pq.batch(cmds)
+    for pairs, o in zip(cases, outs):
+        case = {"stage": "py-dict", "pairs": pairs}
+        ctx.case(case, trivial=len(pairs) < 2)
+        real = [[k, v] for k, v in dict((k, v) for k, v in pairs).items()]
+        ctx.correspondence("py_dict ~ Python dict(pairs) (iteration order, last value wins)", case, [[int(a), int(b)] for a, b in o], real)
+        ctx.correspondence("harness py_dict_items ~ Python dict(pairs)", case, py_dict_items(pairs), real)
 
 
 # ---- F: files the one-level reader cannot represent: it must refuse, not mis-assemble ------------------
@@ -830,7 +852,17 @@ def expected_cells(col, rows):
         return [{"scalar": repr(v)} for v in rows]
     if col["kind"] == "list":
         return [None if NF.is_struct_null(r) else r for r in rows]
-    return [None if (r is None or NF.is_struct_null(r)) else {"dict": [[k, v] for k, v in r]} for r in rows]
+    return [None if (r is None or NF.is_struct_null(r)) else {"dict": py_dict_items(r)} for r in rows]
+
+
+def py_dict_items(pairs):
+    """items of dict(pairs) in iteration order (keys at their first occurrence, last value wins) - the semantics proved for
+    the Coq py_dict (C15_dict_last_wins / C15_dict_keys_first_occurrence) and tied to Python's dict in stage G"""
+    d = {}
+    for k, v in pairs:
+        kk = json.dumps(k)
+        d[kk] = [d[kk][0] if kk in d else k, v]
+    return list(d.values())
 
 
 def file_case_classes(case):
@@ -920,7 +952,7 @@ def predicted_cells(case, mres, vts):
                     elif v is None:
                         return None             # dict(zip(k, None)) raises
                     else:
-                        cells.append({"dict": [[a, b] for a, b in zip(k, v)]})     # zip_maps of the model
+                        cells.append({"dict": py_dict_items(list(zip(k, v)))})     # zip_maps of the model, then dict()
         out[c["name"]] = cells
     return out
 
